@@ -380,7 +380,7 @@ func exec(t []string) string {
 		h, _ := strconv.Atoi(t[1])
 		b := blockDesc{height: uint32(h), sponsor: t[2], txs: t[3:]}
 		for _, d := range b.txs {
-			if p := strings.Split(d, ":"); p[0] == "cancel" {
+			if p := strings.Split(d, ":"); p[0] == "cancel" || p[0] == "upd" {
 				// a CancelProducer for a producer that was cancelled before (cancelHeight != 0) but is not in
 				// state Canceled any more (cancel at the activation height / of a pending producer)
 				if pr := e.cur.GetProducer(ownerKeys[idx(p[1])]); pr != nil && pr.CancelHeight() != 0 {
